@@ -202,7 +202,10 @@ cdef class _cyExpression:
         cdef const index_type[:] indices = np.frombuffer(buff[:dtype.itemsize*num_variables], dtype=dtype)
         if indices.shape[0] != num_variables:
             raise ValueError("given buffer is too short for the number of records")
+        cdef Py_ssize_t parent_size = self.parent.cppcqm.num_variables()
         for vi in range(num_variables):
+            if not (0 <= indices[vi] < parent_size):
+                raise ValueError("variable index out of range")
             expression.add_linear(indices[vi], 0)
 
     @cython.boundscheck(False)
@@ -274,7 +277,10 @@ cdef class _cyExpression:
         cdef const index_type[:] icol = quadratic["v"]
         cdef const bias_type[:] qdata = quadratic["bias"]
 
+        cdef Py_ssize_t size = expression.num_variables()
         for i in range(num_interactions):
+            if not (0 <= irow[i] < size and 0 <= icol[i] < size):
+                raise ValueError("interaction index out of range")
             # we're traversing the lower triangle, so it's OK to use add_quadratic_back
             (<cppQuadraticModelBase[bias_type, index_type]*>expression).add_quadratic_back(
                 irow[i], icol[i], qdata[i])
